@@ -289,10 +289,10 @@ fn push(v: &mut Vec<Case>, nsubs: u8, programs: Vec<Vec<B>>, bound: Option<u32>)
         "broker subs={nsubs} programs={}",
         programs.iter().map(|p| p.iter().map(|o| format!("{o:?}")).collect::<Vec<_>>().join(",")).collect::<Vec<_>>().join(" | ")
     );
-    v.push(Case { desc, exec: ExecCfg { horizon: 20, ..ExecCfg::default() }, bound, scene: Box::new(S { nsubs, programs }) });
+    v.push(Case { desc, exec: ExecCfg { horizon: 20, yield_holding_lock: true, ..ExecCfg::default() }, bound, scene: Box::new(S { nsubs, programs }) });
 }
 
-fn cases(tier: Tier) -> Vec<Case> {
+fn base_cases(tier: Tier) -> Vec<Case> {
     let mut v = vec![];
     let q = tier == Tier::Quick;
     let pubs = |id: u32| [B::Pub(1, id), B::PubAddr(1, id), B::PubCtx(1, 1, id)];
@@ -307,6 +307,9 @@ fn cases(tier: Tier) -> Vec<Case> {
             push(&mut v, n, vec![vec![sub, p, B::Unsub(0, 1), B::Pub(1, 42)]], None);
             push(&mut v, n, vec![vec![p, sub, B::Pub(1, 42)]], None);
             push(&mut v, n, vec![vec![sub, B::DropSub(0), p]], None);
+            // a delivery has happened; the broker still must not keep the subscriber alive
+            push(&mut v, n, vec![vec![sub, p, B::DropSub(0)]], None);
+            push(&mut v, n, vec![vec![sub, p, B::Pub(1, 42), B::DropSub(0), B::Pub(1, 43)]], None);
             push(&mut v, n, vec![vec![sub, B::StopSub(0), p, B::Pub(1, 42)]], None);
             push(&mut v, n, vec![vec![sub, B::RestartSub(0), p, B::Pub(1, 42)]], None);
             push(&mut v, n, vec![vec![sub, p, B::RestartSub(0), sub, B::Pub(1, 42)]], None);
@@ -338,6 +341,10 @@ fn cases(tier: Tier) -> Vec<Case> {
         push(&mut v, n, vec![vec![B::Sub(0, 1), p], vec![B::Sub(0, 1)]], b2);
         push(&mut v, n, vec![vec![B::Sub(0, 1), p], vec![B::DropSub(0)]], b2);
         push(&mut v, n, vec![vec![B::Sub(0, 1), B::StopSub(0)], vec![p, B::Pub(1, 42)]], b2);
+        // publishing while the registry is busy with somebody else's first-time lookup (the
+        // other topic's broker is spawned on demand, which holds the registry across its start)
+        push(&mut v, 2, vec![vec![B::Sub(0, 1), p], vec![B::Sub(1, 2)]], b2);
+        push(&mut v, 2, vec![vec![B::Sub(0, 1), p, B::Pub(1, 42)], vec![B::PubAddr(2, 43)]], b2);
     }
     // two subscribers and two publishers: the common order
     let b3 = if q { Some(3) } else { None };
@@ -356,6 +363,13 @@ fn cases(tier: Tier) -> Vec<Case> {
         }
     }
     v
+}
+
+fn cases(tier: Tier) -> Vec<Case> {
+    // neutral re-configurations of the subscribers (see check::widen)
+    // (a recreated harness actor would take the default role, so restarts stay on the default strategy)
+    let no_restart = |d: &str| !d.contains("Restart");
+    crate::check::widen(&|| base_cases(tier), &|_| true, &no_restart, Some(&no_restart))
 }
 
 pub fn property() -> Property {
